@@ -90,6 +90,19 @@ def has_pub_use(items):
     return any((it[0] == "U" and it[1]) or (it[0] == "M" and has_pub_use(it[3])) for it in items)
 
 
+def exported_names(items, pre=()):
+    """mangled names written into the visibility map by `pub use` statements: module path + alias name"""
+    for it in items:
+        if it[0] == "U" and it[1]:
+            if it[3] == "S" and it[2]:
+                yield tuple(pre) + (it[2][-1],)
+            elif isinstance(it[3], (list, tuple)) and it[3][0] == "L":
+                for n in it[3][1]:
+                    yield tuple(pre) + (n,)
+        elif it[0] == "M":
+            yield from exported_names(it[3], tuple(pre) + (it[2],))
+
+
 def all_fn_names(items, pre=()):
     for it in items:
         if it[0] == "F":
@@ -350,6 +363,21 @@ def ref_options(tree):
     return [(r[0], r[1] if r[0] == "v" else list(r[1])) for r in sorted(refs, key=repr)]
 
 
+def export_refs(use, have=()):
+    """references *through* a re-export: the exported name of a `pub use` (module path + alias) and its relative forms"""
+    if use is None or not use[2][1]:
+        return []
+    mp, _, (_, _, path, tgt) = use
+    names = [path[-1]] if tgt == "S" else (list(tgt[1]) if isinstance(tgt, (list, tuple)) and tgt[0] == "L" else [])
+    out = []
+    for n in names:
+        for s in suffixes(tuple(mp) + (n,), 2):
+            r = ("q", list(s))
+            if r not in have and r not in out:
+                out.append(r)
+    return out
+
+
 def gen_exhaustive(max_defs, shard, nshards, stride=1, nested_pub=True):
     """shard `shard` of `nshards` of the exhaustive scope; stride > 1 keeps every stride-th case only"""
     n = 0
@@ -357,8 +385,9 @@ def gen_exhaustive(max_defs, shard, nshards, stride=1, nested_pub=True):
     shard *= stride
     for tree in small_trees(max_defs, 2, nested_pub=nested_pub):
         mods = sorted(set(module_paths(tree)))
-        refs = ref_options(tree)
+        refs0 = ref_options(tree)
         for use in use_options(tree):
+            refs = refs0 + export_refs(use, refs0)
             for pos in [()] + mods:
                 for ref in refs:
                     # shadowing is only interesting when something could be shadowed: an import or a module member
@@ -470,7 +499,12 @@ def gen_random(seed, n, lets=False):
         for _ in range(r.pick((0, 1, 1, 2, 3))):
             p = r.pick(fnpaths)
             form = r.below(10)
-            if form < 5 and len(p) >= 2:
+            exported = sorted(e for e in set(exported_names(items)) if len(e) >= 2)
+            if exported and r.chance(1, 4):
+                # a `use` of a re-exported name (chains and cycles of re-exports)
+                path = list(r.pick(suffixes(r.pick(exported), 2)))
+                tgt = "S"
+            elif form < 5 and len(p) >= 2:
                 path = list(r.pick(suffixes(p, 2)))
                 tgt = "S"
             elif form < 7 and len(p) >= 2:
@@ -493,6 +527,10 @@ def gen_random(seed, n, lets=False):
             ref = ("v", p[-1])
         if r.chance(1, 15):
             ref = ("q", [r.pick((1, 2, 3)), r.pick((4, 5, 6))])
+        exported = sorted(e for e in set(exported_names(items)) if len(e) >= 2)
+        if exported and r.chance(1, 3):
+            # a reference through a re-export
+            ref = ("q", list(r.pick(suffixes(r.pick(exported), 2))))
         lp = list(let_paths(tree)) if lets else []
         if lp and r.chance(1, 4):
             mp, name = r.pick(lp)
@@ -652,6 +690,19 @@ def let_context_explains(pr):
     return bool(same) and is_prefix(target_mod, same[-1])
 
 
+def reexport_overwrites_reached(pr):
+    """F12-cycle: some `pub use` exports the mangled name of the private function that was reached (the negation of the
+    hypothesis `reexportsFresh` of C17_no_private_route, for that function)"""
+    try:
+        k = int(pr["impl"][1])
+    except ValueError:
+        return False
+    hits = [d for d in walk_defs(pr["items"]) if d[3] == k and d[5] == "fn"]
+    if not hits:
+        return False
+    return hits[0][0] + (hits[0][1],) in set(exported_names(pr["items"]))
+
+
 def finding_class(pr):
     """which listed finding class (if any) explains a property failure on which model and implementation agree"""
     if not pr["agree"]:
@@ -662,8 +713,8 @@ def finding_class(pr):
         return "module-let-global"
     if pr["judge"] == "private-fn-route" and let_context_explains(pr):
         return "private-fn-route+let-context"
-    if pr["judge"] == "private-fn-route" and pr["pub_use"]:
-        return "private-fn-route+reexport"
+    if pr["judge"] == "private-fn-route" and reexport_overwrites_reached(pr):
+        return "private-fn-route+reexport-of-declared-name"
     if pr["judge"] == "private-fn-route" and pr["dup_decl"]:
         return "private-fn-route+duplicate-decl"
     return None
@@ -738,7 +789,7 @@ def main(ctx, args):
         ctx.coverage["exhaustive_scope"] = (f"all module trees with <= {max_defs} functions (names n4,n5; modules n1,n2; depth <= 2; every pub/private assignment of functions"
                                             + ("" if max_defs <= 2 else " and nested modules") + ") "
                                             "x (no use | one use / pub use: single, {..}, * of every absolute/relative path, placed at top or in any module) "
-                                            "x probe position (top level or any module) x reference (identifier, every absolute/relative path) x (plain | locally shadowed)"
+                                            "x probe position (top level or any module) x reference (identifier, every absolute/relative path of a function or let, and of the name a `pub use` exports) x (plain | locally shadowed)"
                                             "  +  let scope: A) every such tree (nested modules non-pub) x (no let item | one `let n7 = const` first or last (`pub let`) in the top-level block or in any module) "
                                             "x probe (top-level `let n8 = ref()` after EVERY prefix of the item list | module-level `let n8 = ref()` first / last in any module | fn probe in any module | fn probe whose reference is the right-hand side of a local `let n7`) "
                                             "x reference (functions and lets: identifier, every absolute/relative path) x probe name (n8 | n7 = name of the let item); "
